@@ -795,6 +795,9 @@ def unmarshal_array(ct, data, offset, lendian, oobFDs):
         nbytes, value = unmarshallers[tcode](
             tsig, data, offset, lendian, oobFDs)
 
+        if nbytes == 0:
+            raise MarshallingError('Invalid array encoding')
+
         offset += nbytes
         values.append(value)
 
